@@ -28,7 +28,7 @@ COMP = ("rel", "fail", "cbrel", "nop")
 NOPP, NOPC = len(PRE) - 1, len(COMP) - 1
 
 
-def tpl_gather(size, cb, x1, x2, a2, x3, a3, rx, c1, b1, c2, b2, c3, b3, t1, t, _twin=False):
+def tpl_gather(size, cb, x1, x2, a2, x3, a3, rx, c1, b1, c2, b2, c3, b3, t1, t, dord=0, _twin=False):
     w = World("c08.gather")
     code = 0
     try:
@@ -87,7 +87,7 @@ def tpl_gather(size, cb, x1, x2, a2, x3, a3, rx, c1, b1, c2, b2, c3, b3, t1, t, 
                 w.settle()
                 act(it, select(COMP, c), b)
             w.settle()
-            w.drain()
+            w.drain(newest_first=(dord == 1))
             if w.excluded:
                 raise Excluded(w.excluded)
         except Excluded as e:
@@ -134,21 +134,28 @@ def _final(w, it, pool, rx):
 
 def families(tier):
     thorough = tier == "thorough"
-    P = ["size", "cb", "x1", "x2", "a2", "x3", "a3", "rx", "c1", "b1", "c2", "b2", "c3", "b3", "t1", "t"]
+    P0 = None
+    P = ["size", "cb", "x1", "x2", "a2", "x3", "a3", "rx", "c1", "b1", "c2", "b2", "c3", "b3", "t1", "t", "dord"]
     pre = ["size >= 1", "cb == 1 or cb == 3", "0 <= x1 < 4", "0 <= x2 <= %d" % NOPP, "a2 >= -1", "0 <= x3 <= %d" % NOPP, "a3 >= -1", "0 <= rx <= 1",
-           "0 <= c1 <= %d" % NOPC, "b1 >= 0", "0 <= c2 <= %d" % NOPC, "b2 >= 0", "0 <= c3 <= %d" % NOPC, "b3 >= 0", "t1 >= 0", "t >= 0"]
+           "0 <= c1 <= %d" % NOPC, "b1 >= 0", "0 <= c2 <= %d" % NOPC, "b2 >= 0", "0 <= c3 <= %d" % NOPC, "b3 >= 0", "t1 >= 0", "t >= 0", "0 <= dord <= 1"]
     if not thorough:
-        pre += ["t1 >= 4", "c3 == %d" % NOPC, "b3 == 0", "size <= 2", "b1 <= 1", "a2 <= 1", "c2 == %d" % NOPC, "b2 == 0",
-                "x3 == %d or (x2 <= 1 and 2 <= x3 <= 3) or (2 <= x2 <= 3 and x3 <= 1) or (x2 == 6 and x3 <= 1) or (x2 == 4 and x3 == 4)" % NOPP, "a3 <= 1", "t == 0 or t >= 4", "rx == 0 or x2 >= 4"]
+        pre += ["t1 >= 4", "size <= 2", "a2 <= 1",
+                "(dord == 0 and c2 == %d and b2 == 0 and c3 == %d and b3 == 0 and b1 <= 1) or "
+                "(dord == 1 and x1 == 2 and x2 == %d and rx == 0 and c1 == 0 and c2 == 0 and c3 == 0 and b1 <= 2 and b2 <= 2 and b3 <= 2)" % (NOPC, NOPC, NOPP),
+                "x3 == %d or (x2 <= 1 and 2 <= x3 <= 3) or (2 <= x2 <= 3 and x3 <= 1) or (x2 == 6 and x3 <= 1) or (x2 == 4 and x3 == 4)" % NOPP,
+                "a3 <= 1", "t == 0 or t >= 4", "rx == 0 or x2 >= 4"]
         parts = [p for p in parts_product(cb=(3,), x1=range(4), x2=range(NOPP + 1), rx=(0, 1))
                  if not ("rx == 1" in p and any(("x2 == %d" % k) in p for k in range(4)))]
+        parts = [p for p in parts if not ("x2 == 6" in p and ("rx == 1" in p or "x1 == 0" in p or "x1 == 3" in p))]
+        parts = [p for p in parts if not ("x2 == 5" in p and "rx == 1" in p)]
         parts = refine(parts, ["x2 == 2", "x2 == 3", "x2 == 6"], "x3", (0, 1, NOPP))
         parts = refine(parts, ["x2 == 4"], "x3", (4, NOPP))
         parts = [q for p in parts for q in ([p + ["a2 == %d" % v] for v in (-1, 0, 1)] if ("x2 == 4" in p and "x3 == 4" in p) else [p])]
+        parts = [p + ["dord == 0"] for p in parts] + [["cb == 3", "x1 == 2", "x2 == %d" % NOPP, "rx == 0", "dord == 1", "b1 == %d" % b] for b in range(3)]
     else:
         pre += ["t1 >= 4", "c3 == %d" % NOPC, "b3 == 0", "size <= 3", "b1 <= 1", "a2 <= 1", "b2 <= 1",
                 "x3 == %d or (x2 <= 1 and 2 <= x3 <= 3) or (2 <= x2 <= 3 and x3 <= 1) or (x2 == 6 and x3 <= 1) or (x2 == 4 and x3 == 4)" % NOPP, "a3 <= 1", "t == 0 or t >= 4"]
         parts = refine(parts_product(cb=(1, 3), x1=range(4), x2=range(NOPP + 1), rx=(0, 1)), ["x2 == 0", "x2 == 1"], "c1", range(NOPC + 1))
     return [Family(name="gather", fn="tpl_gather", params=P, pre=pre, parts=parts,
                    twin_pre=["cb == 3", "x1 == 2", "x2 == 0", "x3 == %d" % NOPP, "rx == 0", "c1 == 0", "c2 == %d" % NOPC],
-                   twin_args=[2, 3, 2, 0, 0, NOPP, 0, 0, 0, 0, NOPC, 0, NOPC, 0, 9, 9])]
+                   twin_args=[2, 3, 2, 0, 0, NOPP, 0, 0, 0, 0, NOPC, 0, NOPC, 0, 9, 9, 0])]
